@@ -200,6 +200,39 @@ Theorem C13_iteration_completes : forall c s i a p,
 Proof. exact iteration_completes. Qed.
 Print Assumptions C13_iteration_completes.
 
+(* ---- "... after which no further forged packet is sent to it": is the restore the LAST frame to the MAC? ----
+   Not in every interleaving (RECORDED FINDING, key forged-frame-decided-before-stophunt-written-after-restore):
+   the handler decides under arpMutex and writes after the unlock, so a forged frame decided before StopHunt
+   returned — the spoof reply of a ProcessPacket call in flight, the armed announcement of an older loop of the
+   same MAC — can be written after the loop's restoring packet.  Both interleavings are witnesses; the first is
+   replayed on the real handler with a gated connection.  What holds: if nothing is armed for the MAC when it
+   leaves the hunt list, nothing forged reaches it any more (C13_restore_is_last_partial); in general at most one
+   frame per call / loop in flight (C13_stale_bound). *)
+Theorem C13_restore_is_last_refuted :
+  exists c evs m,
+    cfg_ok c /\ hunted (final c init_state evs) m = false /\
+    outputs c init_state evs =
+      [[]; []; []; [announce c m]; []; []; []; []; [restore c m];
+       [mkFrame 2 m (host_mac c) (router_ip c) m 3232235522]] /\
+    nth_error evs 5 = Some (StopHunt m) /\ none_of (is_start_of m) (skipn 6 evs).
+Proof. exact restore_is_last_refuted. Qed.
+Print Assumptions C13_restore_is_last_refuted.
+
+Theorem C13_restore_is_last_refuted_two_loops :
+  exists c evs m,
+    cfg_ok c /\ hunted (final c init_state evs) m = false /\
+    outputs c init_state evs = [[]; []; []; []; []; []; []; [restore c m]; []; [announce c m]] /\
+    nth_error evs 4 = Some (StopHunt m) /\ none_of (is_start_of m) (skipn 5 evs).
+Proof. exact restore_is_last_refuted_two_loops. Qed.
+Print Assumptions C13_restore_is_last_refuted_two_loops.
+
+Theorem C13_restore_is_last_partial : forall c m evs s st e out f,
+  cfg_ok c -> hunted s m = false -> armed c m s = 0%nat -> none_of (is_start_of m) evs ->
+  In (st, e, out) (trace c s evs) -> In f out -> forged c f = true -> caller_forged c e = false ->
+  fedst f <> m.
+Proof. exact restore_is_last_partial. Qed.
+Print Assumptions C13_restore_is_last_partial.
+
 (* a loop that has returned stays returned, and its steps are silent, whatever happens (any state) *)
 Theorem C13_dead_loop_silent : forall c s e i a p,
   loop_at s i a p -> is_done p = true ->
